@@ -442,6 +442,26 @@ def r76(ctx) -> None:
                 f'string/list/literal')
 
 
+    # what AString writes BARE is exactly ASTRING-CHAR (RFC 3501 section 9):
+    # ATOM-CHAR plus "]" — no atom-specials "(" ")" "{" SP CTL "%" "*"
+    # DQUOTE "\\", nothing above 0x7e
+    c = ctx.proj.cls(ASTR, 'AString')
+    pat, node = class_pattern(ctx, c, '_pattern')
+    cs = rx.consumable(pat)
+    specials = set(range(0, 0x21)) | {0x7f} | set(b'(){%*"\\') | set(
+        range(0x80, 0x100))
+    bad = sorted(cs & specials)
+    from ..report import Site
+    R.check(not bad, Site(ASTR, node.lineno, 'AString'), None,
+            'AString._pattern is within ASTRING-CHAR',
+            f'AString._pattern admits {[hex(b) for b in bad]}: the same '
+            f'pattern decides in AString.__bytes__ whether a value is '
+            f'written bare, so a client-chosen mailbox or header name with '
+            f'that octet and nothing else that forces quoting is echoed as '
+            f'an atom — `* LIST (\\HasNoChildren) "/" Archive\\2020`, '
+            f'`BODY[HEADER.FIELDS (X\\SPAM)]` — which is not an astring')
+
+
 def _balanced(b: bytes) -> bool:
     depth = {'(': 0, '[': 0}
     pairs = {ord(')'): '(', ord(']'): '['}
